@@ -85,6 +85,9 @@ type Ctx struct {
 	Closed  bool // the channel has been closed
 	ByFault bool // closed by CloseAt or Cancel (a simulated cancellation), not by the budget
 	ByMem   bool // closed because of memory pressure
+	// ErrValue is what Err() reports once closed (default context.Canceled); the interpreter must
+	// return exactly what ctx.Err() says, not a constant of its own.
+	ErrValue error
 	// ClosedAtPoll is the poll count at the moment of closing.
 	ClosedAtPoll int
 	// OnPoll, if set, runs inside every Done() call before the decision
@@ -148,6 +151,9 @@ func (c *Ctx) Cancel() {
 
 func (c *Ctx) Err() error {
 	if c.Closed {
+		if c.ErrValue != nil {
+			return c.ErrValue
+		}
 		return context.Canceled
 	}
 	return nil
